@@ -169,6 +169,8 @@ pub trait AdjSut: Sized + Clone {
     /// (index, weight) listings in index order
     fn node_listing(&self) -> Vec<(usize, u32)>;
     fn edge_listing(&self) -> Vec<(usize, u32)>;
+    /// C06 step invariant through the visit traits (and adaptors)
+    fn visit_check(&mut self, seed: u64) -> Result<(), crate::engines::visit::VErr>;
 }
 
 #[inline]
@@ -543,6 +545,10 @@ impl<Ty: Flip, Ix: IndexType> AdjSut for Graph<u32, u32, Ty, Ix> {
         let s: StableGraph<u32, u32, Ty, Ix> = StableGraph::from(g);
         *self = Graph::from(s);
     }
+    fn visit_check(&mut self, seed: u64) -> Result<(), crate::engines::visit::VErr> {
+        crate::engines::visit::check_graph(self, seed)?;
+        crate::engines::visit::check_frozen_graph(self, seed)
+    }
     fn capacity_op(&mut self, which: u8, n: usize) {
         match which % 7 {
             0 => self.reserve_nodes(n),
@@ -600,6 +606,10 @@ impl<Ty: Flip, Ix: IndexType> AdjSut for StableGraph<u32, u32, Ty, Ix> {
         let s = std::mem::take(self);
         let g: Graph<u32, u32, Ty, Ix> = Graph::from(s);
         *self = StableGraph::from(g);
+    }
+    fn visit_check(&mut self, seed: u64) -> Result<(), crate::engines::visit::VErr> {
+        crate::engines::visit::check_stable(self, seed)?;
+        crate::engines::visit::check_frozen_stable(self, seed)
     }
     fn capacity_op(&mut self, _which: u8, _n: usize) {
         let (cn, ce) = self.capacity();
